@@ -756,6 +756,15 @@ def install(B, LenV):
                     parts.append(s)
                 parts.append(it)
             return mkstr(parts)
+        if name == "format_map":
+            if len(a) != 1:
+                raise Raised(self.mkexc("TypeError", "format_map() takes exactly one argument"))
+            m_ = a[0]
+            if isinstance(m_, ProxyV):
+                m_ = m_.d
+            if not isinstance(m_, DictV):
+                raise Unknown("format_map with a non-dict mapping")
+            return self.str_method(I, s, "format", [], {k_: v_ for k_, v_ in m_.pairs if isinstance(k_, str)})
         if name == "format":
             if isinstance(s, str) and "{" not in s:
                 return s
@@ -939,7 +948,37 @@ def _uuid4(B, I):
 def _json_dumps(B, I, obj, **kw):
     # canonical form of a mapping: deterministic function of its (sorted) content
     sort = kw.get("sort_keys", False)
+    py = _json_concrete(obj)
+    if py is not _NOT_CONCRETE and set(kw) <= {"sort_keys"}:
+        import json as _json
+        try:
+            return _json.dumps(py, sort_keys=bool(sort))       # fully concrete input: the text itself
+        except TypeError as e:
+            raise Raised(B.mkexc("TypeError", str(e)))
     return mkstr([SAtom("Json", _canon(B, I, obj, sort))])
+
+
+_NOT_CONCRETE = object()
+
+
+def _json_concrete(v):
+    """plain Python value of a fully concrete JSON-serialisable abstract value, else _NOT_CONCRETE"""
+    if isinstance(v, (str, int, float, bool, type(None))):
+        return v
+    if isinstance(v, DictV) and not getattr(v, "opaque", False):
+        out = {}
+        for k, x in v.pairs:
+            if not isinstance(k, (str, int, float, bool, type(None))):
+                return _NOT_CONCRETE
+            y = _json_concrete(x)
+            if y is _NOT_CONCRETE:
+                return _NOT_CONCRETE
+            out[k] = y
+        return out
+    if isinstance(v, Seq) and not v.has_seg():
+        ys = [_json_concrete(x) for x in v.items]
+        return _NOT_CONCRETE if any(y is _NOT_CONCRETE for y in ys) else ys
+    return _NOT_CONCRETE
 
 
 def _canon(B, I, v, sort):
@@ -1322,13 +1361,23 @@ def _singledispatch(B, I, func):
     return d
 
 
-def _weak_dict(B, I, *a, **k):
-    """weakref.WeakKeyDictionary / WeakValueDictionary: a dictionary (entries of dead objects vanish; the harness objects stay alive)."""
-    return B.b_dict(I, *a, **k)
+def _weak_key_dict(B, I, *a, **k):
+    """weakref.WeakKeyDictionary: a dictionary whose entries vanish once their key is unreachable elsewhere (H.gc_step sweeps them)"""
+    d = B.b_dict(I, *a, **k)
+    d.weak = "keys"
+    return d
+
+
+def _weak_value_dict(B, I, *a, **k):
+    d = B.b_dict(I, *a, **k)
+    d.weak = "values"
+    return d
 
 
 def _weak_set(B, I, *a):
-    return B.b_set(I, *a)
+    s_ = B.b_set(I, *a)
+    s_.weak = "items"
+    return s_
 
 
 def _lru_cache(B, I, *a, **k):
@@ -1405,8 +1454,8 @@ _EXT_FUNCS = {
     "contextlib.suppress": _suppress,
     "contextlib.contextmanager": _contextmanager,
     "functools.singledispatch": _singledispatch,
-    "weakref.WeakKeyDictionary": _weak_dict,
-    "weakref.WeakValueDictionary": _weak_dict,
+    "weakref.WeakKeyDictionary": _weak_key_dict,
+    "weakref.WeakValueDictionary": _weak_value_dict,
     "weakref.WeakSet": _weak_set,
     "functools.lru_cache": _lru_cache,
     "functools.cache": _lru_cache,
